@@ -1143,7 +1143,9 @@ pub fn c09_across_reconnection(expiry1: u8, second: u8, open: usize, lost_by: u8
     let stream = w.make_stream(s)?;
     let msg = |pid: u16, dup: bool, tag: &str| {
         rc::encode(
-            &rc::Packet::Publish(rc::Publish { qos: 2, dup, pid: Some(pid), topic: "c09/t".into(), payload: tag.as_bytes().to_vec(), subscription_ids: vec![sid], ..Default::default() }),
+            // Message Expiry Interval 1 s / 5 s / one hour / absent: how long a message may still be
+            // forwarded says nothing about whether the client has already seen it
+            &rc::Packet::Publish(rc::Publish { qos: 2, dup, pid: Some(pid), topic: "c09/t".into(), payload: tag.as_bytes().to_vec(), subscription_ids: vec![sid], message_expiry: [Some(1u32), Some(5), Some(3600), None][(pid as usize + open) % 4], ..Default::default() }),
             &rc::Form::canonical(),
         )
     };
@@ -1170,7 +1172,7 @@ pub fn c09_across_reconnection(expiry1: u8, second: u8, open: usize, lost_by: u8
     if w.run_result.is_none() {
         return None;
     }
-    if second == 2 && !w.mark_disconnected(5) {
+    if second == 2 && !w.mark_disconnected(10) {
         return None;
     }
     if !w.set_up_again() {
